@@ -66,8 +66,48 @@ def probe():
     return classify, strategies, names
 
 
+def probe_args():
+    """argument classes: wire type tag of MementoCodec.encode_arg (None = rejected), acceptance by ArgumentHasher._encode"""
+    from twosigma.memento.serialization import MementoCodec
+    from twosigma.memento.reference import ArgumentHasher
+    import numpy as np
+    import c11fns
+    tz = datetime.timezone(datetime.timedelta(hours=-3, minutes=-30))
+    reps = [("None", None), ("bool", False), ("int", 3), ("int-big", 2 ** 70), ("float", 1.5), ("float-nan", float("nan")), ("str", "s"),
+            ("bytes", b"b"), ("date", datetime.date(2020, 1, 2)), ("datetime", datetime.datetime(2020, 1, 2, 3, 4, 5)),
+            ("datetime-aware", datetime.datetime(2020, 1, 2, tzinfo=tz)), ("list", [1, "a"]), ("list-empty", []), ("tuple", (1,)),
+            ("dict", {"a": 1}), ("dict-empty", {}), ("set", {1}), ("complex", 1j), ("np.int64", np.int64(1)), ("object", object()),
+            ("memento-function", c11fns.one)]
+    wire, hasher = [], []
+    for name, v in reps:
+        if name == "memento-function" and v is None:
+            continue
+        try:
+            wire.append((name, MementoCodec.encode_arg(v)["type"]))
+        except (TypeError, ValueError):
+            wire.append((name, None))
+        try:
+            ArgumentHasher._encode(v)
+            hasher.append((name, True))
+        except (TypeError, ValueError):
+            hasher.append((name, False))
+    return wire, hasher
+
+
 def lean_str(s):
     return '"' + s.replace("\\", "\\\\").replace('"', '\\"') + '"'
+
+
+def render_args(wire, hasher):
+    L = ["/-! GENERATED by harness/gen_tables.py from the working tree of twosigma/memento — do not edit. -/",
+         "namespace Memento.Generated", "",
+         "/-- the `type` tag `MementoCodec.encode_arg` writes for one representative argument per class (`none` = rejected) -/",
+         "def argWire : List (String × Option String) := ["]
+    L += ["  (%s, %s)%s" % (lean_str(n), "none" if r is None else "some " + lean_str(r), "," if i + 1 < len(wire) else "") for i, (n, r) in enumerate(wire)]
+    L += ["]", "", "/-- whether `ArgumentHasher._encode` accepts the class -/", "def argHashed : List (String × Bool) := ["]
+    L += ["  (%s, %s)%s" % (lean_str(n), "true" if b else "false", "," if i + 1 < len(hasher) else "") for i, (n, b) in enumerate(hasher)]
+    L += ["]", "", "end Memento.Generated", ""]
+    return "\n".join(L)
 
 
 def render(classify, strategies, names):
@@ -97,30 +137,34 @@ def generate_and_build():
     """returns (ok, log, table) — regenerates the tables from the code, re-checks the theorems over them"""
     import subprocess
     classify, strategies, names = probe()
+    wire, hasher = probe_args()
     lock = common._lake_lock()
     try:
         write_if_changed(os.path.join(GEN, "ResultTypes.lean"), render(classify, strategies, names))
+        write_if_changed(os.path.join(GEN, "ArgTypes.lean"), render_args(wire, hasher))
         write_if_changed(os.path.join(GEN, "C02Tables.lean"), open(TEMPLATE).read())
+        write_if_changed(os.path.join(GEN, "C11Tables.lean"), open(TEMPLATE.replace("C02Tables", "C11Tables")).read())
         p = subprocess.run(["lake", "build", "Generated"], cwd=common.LEAN, stdout=subprocess.PIPE, stderr=subprocess.STDOUT, text=True, timeout=1800)
-        return p.returncode == 0, p.stdout[-3000:], dict(classify=classify, strategies=strategies, names=names)
+        return p.returncode == 0, p.stdout[-3000:], dict(classify=classify, strategies=strategies, names=names, arg_wire=wire, arg_hashed=hasher)
     finally:
         lock.close()
 
 
-def audit_generated():
+def audit_generated(which="C02Tables"):
     """axioms of the theorems over the generated tables; returns (names, problems)"""
     import re
     import subprocess
-    code = common.strip_comments(open(TEMPLATE).read())
+    tpl = TEMPLATE.replace("C02Tables", which)
+    code = common.strip_comments(open(tpl).read())
     names = ["Memento.Generated." + m for m in re.findall(r"^theorem\s+(\S+)", code, re.M)]
     bad = []
     for ln, line in enumerate(code.split("\n"), 1):
         if common.BANNED.search(line):
-            bad.append("templates/C02Tables.lean:%d: %s" % (ln, line.strip()))
+            bad.append("templates/%s.lean:%d: %s" % (which, ln, line.strip()))
     adir = os.path.join(common.LEAN, ".lake", "audit")
     os.makedirs(adir, exist_ok=True)
     f = os.path.join(adir, "AuditGen_%d.lean" % os.getpid())
-    open(f, "w").write("import Generated.C02Tables\n" + "".join("#print axioms %s\n" % t for t in names))
+    open(f, "w").write("import Generated.%s\n" % which + "".join("#print axioms %s\n" % t for t in names))
     try:
         p = subprocess.run(["lake", "env", "lean", f], cwd=common.LEAN, stdout=subprocess.PIPE, stderr=subprocess.STDOUT, text=True, timeout=600)
     finally:
@@ -137,3 +181,19 @@ def audit_generated():
             if extra:
                 bad.append("%s depends on %s" % (t, extra))
     return names, bad
+
+
+def attach(chk, which):
+    """regenerate, build and audit; account the theorems of template `which` as obligations of the check"""
+    import re
+    n = len(re.findall(r"^theorem\s+\S+", common.strip_comments(open(TEMPLATE.replace("C02Tables", which)).read()), re.M))
+    chk.obligations += n
+    ok, log, table = generate_and_build()
+    names, bad = audit_generated(which) if ok else ([], [])
+    chk.extra["generated_tables"] = dict(template=which, theorems=n, built=ok, entries={k: len(v) for k, v in table.items()})
+    if not ok or bad:
+        chk.broken_obligation("theorems over the tables regenerated from the code (%s) no longer check" % which,
+                              {"log_tail": log[-1500:], "problems": bad, "tables": table})
+    else:
+        chk.discharged += len(names)
+    return ok and not bad
